@@ -70,6 +70,7 @@ theorem isConst_den (raw fv : Nat) : ∀ (l : List Src) (n : Nat), isConst l = s
       obtain ⟨m, hm, rfl⟩ := h
       simp [den, Src.eval, ih m hm]
     | inp a j ng => simp [isConst] at h
+    | ors ls => simp [isConst] at h
     | top => simp [isConst] at h
 
 theorem length_zeros (n : Nat) : (zeros n).length = n := by simp [zeros]
@@ -115,19 +116,37 @@ theorem den_inputV_fv (raw fv n : Nat) : den raw fv (inputV true 0 n) = fv % 2 ^
 
 @[simp] theorem Src.eval_c (raw fv : Nat) (b : Bool) : (Src.c b).eval raw fv = b := rfl
 
-theorem Src.eval_not (raw fv : Nat) (s : Src) (h : s ≠ .top) : (s.not).eval raw fv = !s.eval raw fv := by
+theorem Src.eval_inp (raw fv : Nat) (g : Bool) (j : Nat) (n : Bool) :
+    (Src.inp g j n).eval raw fv = Lit.eval raw fv ⟨g, j, n⟩ := by
+  cases g <;> simp [Src.eval, Lit.eval]
+
+theorem Src.eval_not (raw fv : Nat) (s : Src) (h : s.not ≠ .top) : (s.not).eval raw fv = !s.eval raw fv := by
   cases s with
   | c b => simp [Src.not, Src.eval]
   | inp a j n => cases a <;> cases n <;> simp [Src.not, Src.eval]
+  | ors ls => exact absurd rfl h
   | top => exact absurd rfl h
 
-theorem Src.not_ne_top {s : Src} (h : s ≠ .top) : s.not ≠ .top := by
-  cases s <;> simp_all [Src.not]
+theorem any_insertLit (f : Lit → Bool) (l : Lit) : ∀ xs : List Lit, (insertLit l xs).any f = (f l || xs.any f) := by
+  intro xs
+  induction xs with
+  | nil => simp [insertLit]
+  | cons x xs ih =>
+    unfold insertLit
+    by_cases h1 : l = x
+    · subst h1; simp
+    · rw [if_neg h1]
+      by_cases h2 : Lit.lt l x = true
+      · rw [if_pos h2]; simp
+      · rw [if_neg h2]; simp only [List.any_cons, ih]
+        cases f l <;> cases f x <;> simp
 
-theorem Src.and_inp (a j n a' j' n') : Src.and (.inp a j n) (.inp a' j' n') =
-    if Src.inp a j n = .inp a' j' n' then .inp a j n else if Src.inp a j n = (Src.inp a' j' n').not then .c false else .top := rfl
-theorem Src.or_inp (a j n a' j' n') : Src.or (.inp a j n) (.inp a' j' n') =
-    if Src.inp a j n = .inp a' j' n' then .inp a j n else if Src.inp a j n = (Src.inp a' j' n').not then .c true else .top := rfl
+theorem any_foldr_insertLit (f : Lit → Bool) (b : List Lit) : ∀ a : List Lit,
+    (a.foldr insertLit b).any f = (a.any f || b.any f) := by
+  intro a
+  induction a with
+  | nil => simp
+  | cons x a ih => simp only [List.foldr_cons, any_insertLit, ih, List.any_cons, Bool.or_assoc]
 
 theorem Src.eval_and (raw fv : Nat) (x y : Src) (h : Src.and x y ≠ .top) :
     (Src.and x y).eval raw fv = (x.eval raw fv && y.eval raw fv) := by
@@ -138,18 +157,33 @@ theorem Src.eval_and (raw fv : Nat) (x y : Src) (h : Src.and x y ≠ .top) :
     | top => cases b <;> exact absurd rfl h
     | c b' => cases b <;> cases b' <;> rfl
     | inp a j n => cases b <;> simp [Src.and, Src.eval]
+    | ors ls => cases b <;> simp [Src.and, Src.eval]
   | inp a j n =>
     cases y with
     | top => exact absurd rfl h
     | c b' => cases b' <;> simp [Src.and, Src.eval]
+    | ors ls => simp [Src.and] at h
     | inp a' j' n' =>
-      rw [Src.and_inp] at h ⊢
+      have e : Src.and (.inp a j n) (.inp a' j' n') =
+          if Src.inp a j n = .inp a' j' n' then .inp a j n else if Src.inp a j n = (Src.inp a' j' n').not then .c false else .top := rfl
+      rw [e] at h ⊢
       by_cases h1 : Src.inp a j n = .inp a' j' n'
       · rw [if_pos h1, ← h1]; simp
       · rw [if_neg h1] at h ⊢
         by_cases h2 : Src.inp a j n = (Src.inp a' j' n').not
-        · rw [if_pos h2, h2, Src.eval_not _ _ _ (by simp)]; simp [Src.eval]
+        · rw [if_pos h2, h2, Src.eval_not _ _ _ (by simp [Src.not])]; simp [Src.eval]
         · rw [if_neg h2] at h; exact absurd rfl h
+  | ors ls =>
+    cases y with
+    | top => exact absurd rfl h
+    | c b' => cases b' <;> simp [Src.and, Src.eval]
+    | inp a' j' n' => simp [Src.and] at h
+    | ors ls' =>
+      have e : Src.and (.ors ls) (.ors ls') = if Src.ors ls = .ors ls' then .ors ls else .top := rfl
+      rw [e] at h ⊢
+      by_cases h1 : Src.ors ls = .ors ls'
+      · rw [if_pos h1, ← h1]; simp
+      · rw [if_neg h1] at h; exact absurd rfl h
 
 theorem Src.eval_or (raw fv : Nat) (x y : Src) (h : Src.or x y ≠ .top) :
     (Src.or x y).eval raw fv = (x.eval raw fv || y.eval raw fv) := by
@@ -160,18 +194,41 @@ theorem Src.eval_or (raw fv : Nat) (x y : Src) (h : Src.or x y ≠ .top) :
     | top => cases b <;> exact absurd rfl h
     | c b' => cases b <;> cases b' <;> rfl
     | inp a j n => cases b <;> simp [Src.or, Src.eval]
+    | ors ls => cases b <;> simp [Src.or, Src.eval]
   | inp a j n =>
     cases y with
     | top => exact absurd rfl h
     | c b' => cases b' <;> simp [Src.or, Src.eval]
+    | ors ls =>
+      have e : Src.or (.inp a j n) (.ors ls) = .ors (insertLit ⟨a, j, n⟩ ls) := rfl
+      rw [e, Src.eval_inp]; simp only [Src.eval, any_insertLit]
     | inp a' j' n' =>
-      rw [Src.or_inp] at h ⊢
+      have e : Src.or (.inp a j n) (.inp a' j' n') =
+          if Src.inp a j n = .inp a' j' n' then .inp a j n
+          else if a = a' ∧ j = j' then .c true else .ors (insertLit ⟨a, j, n⟩ [⟨a', j', n'⟩]) := rfl
+      rw [e]
       by_cases h1 : Src.inp a j n = .inp a' j' n'
       · rw [if_pos h1, ← h1]; simp
-      · rw [if_neg h1] at h ⊢
-        by_cases h2 : Src.inp a j n = (Src.inp a' j' n').not
-        · rw [if_pos h2, h2, Src.eval_not _ _ _ (by simp)]; simp [Src.eval]
-        · rw [if_neg h2] at h; exact absurd rfl h
+      · rw [if_neg h1]
+        by_cases h2 : a = a' ∧ j = j'
+        · rw [if_pos h2]
+          obtain ⟨rfl, rfl⟩ := h2
+          have hn : n ≠ n' := by intro e; subst e; exact h1 rfl
+          rw [Src.eval_inp, Src.eval_inp]
+          simp only [Src.eval_c, Lit.eval]
+          cases n <;> cases n' <;> simp_all
+        · rw [if_neg h2, Src.eval_inp, Src.eval_inp]
+          simp only [Src.eval, any_insertLit, List.any_cons, List.any_nil, Bool.or_false]
+  | ors ls =>
+    cases y with
+    | top => exact absurd rfl h
+    | c b' => cases b' <;> simp [Src.or, Src.eval]
+    | inp a' j' n' =>
+      have e : Src.or (.ors ls) (.inp a' j' n') = .ors (insertLit ⟨a', j', n'⟩ ls) := rfl
+      rw [e, Src.eval_inp]; simp only [Src.eval, any_insertLit, Bool.or_comm]
+    | ors ls' =>
+      have e : Src.or (.ors ls) (.ors ls') = .ors (ls.foldr insertLit ls') := rfl
+      rw [e]; simp only [Src.eval, any_foldr_insertLit]
 
 theorem Src.eval_mux (raw fv : Nat) (c x y : Src) (h : Src.mux c x y ≠ .top) :
     (Src.mux c x y).eval raw fv = (if c.eval raw fv then x.eval raw fv else y.eval raw fv) := by
@@ -182,18 +239,22 @@ theorem Src.eval_mux (raw fv : Nat) (c x y : Src) (h : Src.mux c x y ≠ .top) :
     by_cases h1 : x = y
     · rw [if_pos h1, h1]; simp
     · rw [if_neg h1] at h ⊢
+      have key : ∀ s : Src, (if x = .c true ∧ y = .c false then s else if x = .c false ∧ y = .c true then s.not else .top) ≠ .top →
+          (if x = .c true ∧ y = .c false then s else if x = .c false ∧ y = .c true then s.not else .top).eval raw fv =
+            (if s.eval raw fv then x.eval raw fv else y.eval raw fv) := by
+        intro s hs
+        by_cases h2 : x = .c true ∧ y = .c false
+        · rw [if_pos h2, h2.1, h2.2]; simp only [Src.eval_c]; cases s.eval raw fv <;> rfl
+        · rw [if_neg h2] at hs ⊢
+          by_cases h3 : x = .c false ∧ y = .c true
+          · rw [if_pos h3] at hs ⊢
+            rw [h3.1, h3.2, Src.eval_not _ _ _ hs]; simp only [Src.eval_c]; cases s.eval raw fv <;> rfl
+          · rw [if_neg h3] at hs; exact absurd rfl hs
       cases c with
       | top => simp at h0
       | c b => cases b <;> simp [Src.eval]
-      | inp a j n =>
-        simp only at h ⊢
-        by_cases h2 : x = .c true ∧ y = .c false
-        · rw [if_pos h2, h2.1, h2.2]; simp only [Src.eval_c]; cases (Src.inp a j n).eval raw fv <;> rfl
-        · rw [if_neg h2] at h ⊢
-          by_cases h3 : x = .c false ∧ y = .c true
-          · rw [if_pos h3, h3.1, h3.2, Src.eval_not _ _ _ (by simp)]; simp only [Src.eval_c]; cases (Src.inp a j n).eval raw fv <;> rfl
-          · rw [if_neg h3] at h; exact absurd rfl h
-
+      | inp a j n => exact key _ h
+      | ors ls => exact key _ h
 
 /-! ### lists of bits -/
 
@@ -297,8 +358,7 @@ theorem den_not {a : List Src} {n : Nat} (ha : a.length = n) (h : noTop (a.map S
     rw [testBit_compl hd, testBit_den, evalAt_lt _ _ (by omega), evalAt_lt _ _ (by omega)]
     have := noTop_getElem h (k := k) (by omega)
     simp only [List.getElem_map] at this ⊢
-    have hne : a[k] ≠ .top := by intro e; rw [e] at this; exact this rfl
-    simp [hk, Src.eval_not raw fv _ hne]
+    simp [hk, Src.eval_not raw fv _ this]
 
 theorem den_shl {a : List Src} {n sv : Nat} (ha : a.length = n) (hs : sv < n) :
     den raw fv (zeros sv ++ a.take (n - sv)) = (den raw fv a <<< sv) % 2 ^ n := by
